@@ -226,6 +226,10 @@ func calculateMaxCreation(params *datadoghqv1alpha1.ExtendedDaemonSetSpecStrateg
 		return 0, err
 	}
 	rollingUpdateDuration := now.Sub(rsStartTime)
+	if params.SlowStartIntervalDuration.Duration <= 0 {
+		// no usable interval means no ramp: only maxParallelPodCreation applies
+		return int(*params.MaxParallelPodCreation), nil
+	}
 	nbSlowStartSlot := int(rollingUpdateDuration / params.SlowStartIntervalDuration.Duration)
 	result := (1 + nbSlowStartSlot) * startValue
 	if result > int(*params.MaxParallelPodCreation) {
